@@ -20,11 +20,13 @@
 (*   G.pp  PingPong: pending_pong, pending_ping (shutdown ping: none /     *)
 (*         unsent / sent), UserPingsInner.state                            *)
 (*   G.ga  GoAway: close_now, going_away, pending, is_user_initiated       *)
-(*   G.sl  ABSTRACT stream layer: per stream idle / open / resp / ending / *)
-(*         closed, last_processed_id, Recv.max_stream_id, Send.max_stream_ *)
-(*         id, Recv.next_stream_id, conn_error, the two initial window     *)
-(*         sizes the settings drive, the queue of stream frames waiting in *)
-(*         Prioritize                                                      *)
+(*   G.sl  ABSTRACT stream layer: per stream idle / popen / open / resp /  *)
+(*         ending / closed, last_processed_id, Recv.max_stream_id,         *)
+(*         Send.max_stream_id, Recv.next_stream_id, conn_error, the two    *)
+(*         initial window sizes the settings drive, Prioritize's           *)
+(*         pending_open / pending_send (streams, one frame per turn) and   *)
+(*         the frames queued on each stream, client: the handles alive     *)
+(*         (Inner.refs)                                                    *)
 (*   G.io  transport + codec: frames readable (inq), EOF, frames buffered  *)
 (*         in FramedWrite (wbuf), "codec full" (a chained DATA frame is    *)
 (*         `next`), socket blocked, shutdown called                        *)
@@ -55,11 +57,15 @@
 (*     its &mut methods (graceful_shutdown, abrupt_shutdown,               *)
 (*     set_initial_window_size) - none of them wakes the task by itself.   *)
 (*  A7 the connection object is dropped as soon as its future completed.   *)
-(*  A8 (server role only in this version: no client idle close yet)        *)
+(*  A8 client role: a request is HEADERS with END_STREAM on the next local *)
+(*     id, the response HEADERS with END_STREAM; the application drops its *)
+(*     handles of a stream as soon as the stream is closed (response or    *)
+(*     error seen), or a request with one large DATA frame; PUSH_PROMISE   *)
+(*     is not modelled (last_processed_id = 0).                            *)
 (***************************************************************************)
 EXTENDS H2Base
 
-CONSTANTS Streams,        \* peer-initiated stream ids, e.g. {1, 3}
+CONSTANTS Streams,        \* stream ids: server role = initiated by the peer, client role = by the application, e.g. {1, 3}
           Role            \* "server" | "client"
 
 VARIABLES cs, se, pp, ga, sl, io, tk, gh,
@@ -89,7 +95,8 @@ NoRes == [k |-> "none", code |-> 0, remote |-> FALSE]
 ResOk == [k |-> "ok", code |-> 0, remote |-> FALSE]
 ResGoAway(code, remote) == [k |-> "goaway", code |-> code, remote |-> remote]    \* Error::GoAway(_, code, Library | Remote)
 
-CountedSt == {"open", "resp", "ending"}                \* the stream is counted in Counts.num_recv_streams
+\* stream states: idle | popen (client: queued in pending_open, not yet counted) | open | resp | ending | closed
+CountedSt == {"open", "resp", "ending"}                \* the stream is counted in Counts.num_recv_streams / num_send_streams
 
 Cur == [cs |-> cs, se |-> se, pp |-> pp, ga |-> ga, sl |-> sl, io |-> io, tk |-> tk, gh |-> gh, out |-> <<>>, api |-> <<>>]
 Commit(G) ==
@@ -102,12 +109,18 @@ Init0 ==
     /\ se = [local |-> "WaitingAck", lval |-> 0, remote |-> -1]
     /\ pp = [pong |-> 0, ping |-> "none", user |-> "NoHandle"]
     /\ ga = [closeNow |-> FALSE, going |-> NoFrame, pending |-> NoFrame, userInit |-> FALSE]
-    /\ sl = [st |-> [s \in Streams |-> "idle"], sq |-> <<>>, lastProc |-> 0, recvMax |-> MaxI, sendMax |-> MaxI, nextId |-> 1,
-             connErr |-> FALSE, sendIws |-> 0, recvIws |-> 0]
+    /\ sl = [st |-> [s \in Streams |-> "idle"],
+             po |-> <<>>,                                \* Prioritize.pending_open (stream ids; client)
+             ps |-> <<>>,                                \* Prioritize.pending_send (stream ids, FIFO, one frame per turn)
+             fq |-> [s \in Streams |-> <<>>],            \* stream.pending_send: the frames queued on each stream
+             lastProc |-> 0, recvMax |-> MaxI, sendMax |-> MaxI, nextId |-> 1,
+             connErr |-> FALSE, sendIws |-> 0, recvIws |-> 0,
+             ref |-> [s \in Streams |-> FALSE],          \* client: the application holds handles of the stream (OpaqueStreamRef: Inner.refs)
+             sr |-> Role = "client"]                     \* client: a SendRequest handle is alive (a clone of Streams: Inner.refs)
     \* (the peer's first SETTINGS frame follows its preface: it is there when the connection is polled for the first time)
     /\ io = [inq |-> <<FSettings(0)>>, eof |-> FALSE, wbuf |-> <<>>, full |-> FALSE, blocked |-> FALSE, shut |-> FALSE]
     /\ tk = [pc |-> "idle", woken |-> TRUE, rw |-> FALSE, ww |-> FALSE, pw |-> FALSE, tw |-> FALSE,
-             r |-> NoRes, res |-> NoRes, pt |-> "none"]
+             r |-> NoRes, res |-> NoRes, pt |-> "none", had |-> FALSE]
     /\ gh = [ok |-> TRUE,            \* no assert! / expect / debug_assert of the modelled code fired
              okC14 |-> TRUE, okC15 |-> TRUE,
              unacked |-> <<>>,       \* SETTINGS read and not yet acknowledged (values)
@@ -140,10 +153,18 @@ Buffer(G, f) == IF G.io.full THEN Fail(G) ELSE [G EXCEPT !.io.wbuf = Append(@, f
 
 \* ---- abstract stream layer (streams.rs) ----------------------------------------------------------------------
 HasStreams(G) == \E s \in Streams : G.sl.st[s] \in CountedSt             \* Counts::has_streams
-DropQueued(q, s) == SelectSeq(q, LAMBDA x : x.s # s)
+HasRefs(G) == G.sl.sr \/ \E s \in Streams : G.sl.ref[s]                    \* me.refs > 1
+HasStreamsOrRefs(G) == HasStreams(G) \/ HasRefs(G)                         \* Streams::has_streams_or_other_references
+\* Prioritize::clear_queue (the stream's entry in pending_send / pending_open is popped later as "dangling": same effect)
+Unqueue(G, S) == [G EXCEPT !.sl.po = SelectSeq(@, LAMBDA x : x \notin S), !.sl.ps = SelectSeq(@, LAMBDA x : x \notin S),
+                           !.sl.fq = [s \in Streams |-> IF s \in S THEN <<>> ELSE @[s]]]
+\* Prioritize::queue_frame + schedule_send
+QueueFrames(G, s, fs) == [G EXCEPT !.sl.fq[s] = @ \o fs,
+                                   !.sl.ps = IF (\E i \in 1..Len(@) : @[i] = s) \/ (\E i \in 1..Len(G.sl.po) : G.sl.po[i] = s) THEN @ ELSE Append(@, s)]
+Item(k, h) == [k |-> k, h |-> h]
 \* Streams::handle_error (every stream: recv.handle_error + send.handle_error inside counts.transition), conn_error = Some
 StreamsHandleError(G) ==
-    [G EXCEPT !.sl.st = [s \in Streams |-> IF @[s] \in CountedSt THEN "closed" ELSE @[s]], !.sl.sq = <<>>, !.sl.connErr = TRUE]
+    Unqueue([G EXCEPT !.sl.st = [s \in Streams |-> IF @[s] \in CountedSt \cup {"popen"} THEN "closed" ELSE @[s]], !.sl.connErr = TRUE], Streams)
 \* Streams::recv_eof(false)
 StreamsRecvEof(G) == StreamsHandleError(G)
 \* Streams::send_go_away -> Recv::go_away: assert!(self.max_stream_id >= last_processed_id)
@@ -175,16 +196,21 @@ Poll2Pending(G) == [G EXCEPT !.tk.pc = "complete"]
 \* poll2 returned Poll::Ready(result)
 Poll2Ready(G, r) == [G EXCEPT !.tk.pc = "result", !.tk.r = r]
 \* Connection::poll returned Poll::Pending; (the server application then accepts what is in pending_accept)
-PollPending(G) == [G EXCEPT !.tk.pc = "idle", !.gh.handed = G.sl.lastProc]
+\* client::Connection::poll: "if we had streams/refs, and don't anymore, wake up one more time to ensure proper shutdown"
+PollPending(G) == [G EXCEPT !.tk.pc = "idle", !.gh.handed = G.sl.lastProc,
+                            !.tk.woken = @ \/ (Role = "client" /\ G.tk.had /\ ~HasStreamsOrRefs(G))]
 
 Alive == tk.res.k = "none"
 Parked == tk.pc = "idle" /\ ~tk.woken
 
 \* ---- the connection task ------------------------------------------------------------------------------------------------
+\* Each step is an operator on the machine record (XxxOp) and an action (Xxx) enabled where the program counter says so.
 \* the executor polls the connection future (server: poll_closed = Connection::poll)
-PollStart ==
-    /\ Alive /\ tk.pc = "idle" /\ tk.woken
-    /\ Commit(Dispatch([Cur EXCEPT !.tk.woken = FALSE]))
+\* client::Connection::poll first calls maybe_close_connection_if_no_streams and notes has_streams_or_other_references
+PollStartOp(G) ==
+    IF Role = "server" THEN Dispatch([G EXCEPT !.tk.woken = FALSE])
+    ELSE LET G1 == IF ~HasStreamsOrRefs(G) THEN DynGoAwayNow(G, NO_ERROR) ELSE G
+         IN Dispatch([G1 EXCEPT !.tk.woken = FALSE, !.tk.had = HasStreamsOrRefs(G1)])
 
 \* poll2: `if let Some(reason) = ready!(self.poll_go_away(cx)?)` = GoAway::send_pending_go_away + what poll2 does with it
 AfterGoAway(G, some, reason) ==
@@ -192,71 +218,62 @@ AfterGoAway(G, some, reason) ==
     ELSE IF ShouldCloseNow(G)
          THEN Poll2Ready(G, IF G.ga.userInit THEN ResOk ELSE ResGoAway(reason, FALSE))
          ELSE [(IF reason # NO_ERROR THEN Fail(G) ELSE G) EXCEPT !.tk.pc = "pong"]          \* debug_assert_eq!(reason, NO_ERROR)
-PollGoAway ==
-    /\ tk.pc = "go_away"
-    /\ LET G == Cur IN
-       IF G.ga.pending.some
-       THEN LET R == PollReady(G) IN
-            IF ~HasCapacity(R) THEN Commit(Poll2Pending(R))                                  \* self.pending = Some(frame); Pending
-            ELSE LET f == G.ga.pending
-                     B == Buffer([R EXCEPT !.ga.pending = NoFrame], FGoAway(f.last, f.code))
-                     \* ghost: C15 - last ids never increase, never below a stream already handed to the application
-                     prev == B.gh.goaways
-                     okm == (prev = <<>> \/ prev[Len(prev)][1] >= f.last) /\ f.last >= B.gh.handed
-                     B2 == [B EXCEPT !.gh.goaways = Append(@, <<f.last, f.code>>), !.gh.okC15 = @ /\ okm]
-                 IN Commit(AfterGoAway(B2, TRUE, f.code))
-       ELSE IF ShouldCloseNow(G) THEN Commit(AfterGoAway(G, G.ga.going.some, G.ga.going.code))
-       ELSE Commit(AfterGoAway(G, FALSE, 0))
+PollGoAwayOp(G) ==
+    IF G.ga.pending.some
+    THEN LET R == PollReady(G) IN
+         IF ~HasCapacity(R) THEN Poll2Pending(R)                                          \* self.pending = Some(frame); Pending
+         ELSE LET f == G.ga.pending
+                  B == Buffer([R EXCEPT !.ga.pending = NoFrame], FGoAway(f.last, f.code))
+                  \* ghost: C15 - last ids never increase, never below a stream already handed to the application
+                  prev == B.gh.goaways
+                  okm == (prev = <<>> \/ prev[Len(prev)][1] >= f.last) /\ f.last >= B.gh.handed
+                  B2 == [B EXCEPT !.gh.goaways = Append(@, <<f.last, f.code>>), !.gh.okC15 = @ /\ okm]
+              IN AfterGoAway(B2, TRUE, f.code)
+    ELSE IF ShouldCloseNow(G) THEN AfterGoAway(G, G.ga.going.some, G.ga.going.code)
+    ELSE AfterGoAway(G, FALSE, 0)
 
 \* poll_ready: PingPong::send_pending_pong
-SendPendingPong ==
-    /\ tk.pc = "pong"
-    /\ LET G == Cur IN
-       IF G.pp.pong = 0 THEN Commit([G EXCEPT !.tk.pc = "ping"])
-       ELSE LET R == PollReady(G) IN
-            IF ~HasCapacity(R) THEN Commit(Poll2Pending(R))                                  \* self.pending_pong = Some(pong); Pending
-            ELSE LET B == Buffer([R EXCEPT !.pp.pong = 0], FPong(G.pp.pong))
-                     \* ghost: C14 - answers in arrival order, one per PING
-                     okm == B.gh.unans # <<>> /\ Head(B.gh.unans) = G.pp.pong
-                 IN Commit([B EXCEPT !.tk.pc = "ping", !.gh.okC14 = @ /\ okm, !.gh.unans = IF @ = <<>> THEN @ ELSE Tail(@)])
+SendPendingPongOp(G) ==
+    IF G.pp.pong = 0 THEN [G EXCEPT !.tk.pc = "ping"]
+    ELSE LET R == PollReady(G) IN
+         IF ~HasCapacity(R) THEN Poll2Pending(R)                                          \* self.pending_pong = Some(pong); Pending
+         ELSE LET B == Buffer([R EXCEPT !.pp.pong = 0], FPong(G.pp.pong))
+                  \* ghost: C14 - answers in arrival order, one per PING
+                  okm == B.gh.unans # <<>> /\ Head(B.gh.unans) = G.pp.pong
+              IN [B EXCEPT !.tk.pc = "ping", !.gh.okC14 = @ /\ okm, !.gh.unans = IF @ = <<>> THEN @ ELSE Tail(@)]
 
 \* poll_ready: PingPong::send_pending_ping
-SendPendingPing ==
-    /\ tk.pc = "ping"
-    /\ LET G == Cur IN
-       IF G.pp.ping # "none"
-       THEN IF G.pp.ping = "sent" THEN Commit([G EXCEPT !.tk.pc = "settings"])
-            ELSE LET R == PollReady(G) IN
-                 IF ~HasCapacity(R) THEN Commit(Poll2Pending(R))
-                 ELSE Commit([Buffer(R, FPing(SHUTDOWN_PL)) EXCEPT !.pp.ping = "sent", !.tk.pc = "settings"])
-       ELSE IF G.pp.user = "NoHandle" THEN Commit([G EXCEPT !.tk.pc = "settings"])
-       ELSE IF G.pp.user = "PendingPing"
-            THEN LET R == PollReady(G) IN
-                 IF ~HasCapacity(R) THEN Commit(Poll2Pending(R))
-                 ELSE Commit([Buffer(R, FPing(USER_PL)) EXCEPT !.pp.user = "PendingPong", !.tk.pc = "settings"])
-            ELSE Commit([G EXCEPT !.tk.pw = TRUE, !.tk.pc = "settings"])                     \* users.0.ping_task.register(cx.waker())
+SendPendingPingOp(G) ==
+    IF G.pp.ping # "none"
+    THEN IF G.pp.ping = "sent" THEN [G EXCEPT !.tk.pc = "settings"]
+         ELSE LET R == PollReady(G) IN
+              IF ~HasCapacity(R) THEN Poll2Pending(R)
+              ELSE [Buffer(R, FPing(SHUTDOWN_PL)) EXCEPT !.pp.ping = "sent", !.tk.pc = "settings"]
+    ELSE IF G.pp.user = "NoHandle" THEN [G EXCEPT !.tk.pc = "settings"]
+    ELSE IF G.pp.user = "PendingPing"
+         THEN LET R == PollReady(G) IN
+              IF ~HasCapacity(R) THEN Poll2Pending(R)
+              ELSE [Buffer(R, FPing(USER_PL)) EXCEPT !.pp.user = "PendingPong", !.tk.pc = "settings"]
+         ELSE [G EXCEPT !.tk.pw = TRUE, !.tk.pc = "settings"]                             \* users.0.ping_task.register(cx.waker())
 
 \* poll_ready: Settings::poll_send (+ Streams::send_pending_refusal: nothing to refuse, A2)
-SettingsPollSend ==
-    /\ tk.pc = "settings"
-    /\ LET G == Cur
-           R1 == IF G.se.remote >= 0 THEN PollReady(G) ELSE G
-       IN IF G.se.remote >= 0 /\ ~HasCapacity(R1) THEN Commit(Poll2Pending(R1))
-          ELSE LET \* buffer the ACK, then apply: Streams::apply_remote_settings (Send.init_window_sz, A1)
-                   B1 == IF G.se.remote < 0 THEN G
-                         ELSE LET v == G.se.remote
-                                  B == Buffer(R1, FSettingsAck)
-                                  okm == B.gh.unacked # <<>> /\ Head(B.gh.unacked) = v
-                              IN [B EXCEPT !.sl.sendIws = IF v > 0 THEN v ELSE @,
-                                           !.gh.okC14 = @ /\ okm,
-                                           !.gh.unacked = IF @ = <<>> THEN @ ELSE Tail(@),
-                                           !.gh.expSendIws = IF v > 0 THEN v ELSE @]
-                   B2 == [B1 EXCEPT !.se.remote = -1]                                        \* self.remote = None
-               IN IF B2.se.local # "ToSend" THEN Commit([B2 EXCEPT !.tk.pc = "read"])
-                  ELSE LET R2 == PollReady(B2) IN
-                       IF ~HasCapacity(R2) THEN Commit(Poll2Pending(R2))
-                       ELSE Commit([Buffer(R2, FSettings(B2.se.lval)) EXCEPT !.se.local = "WaitingAck", !.tk.pc = "read",
-                                                                            !.gh.outstanding = @ + 1])
+SettingsPollSendOp(G) ==
+    LET R1 == IF G.se.remote >= 0 THEN PollReady(G) ELSE G IN
+    IF G.se.remote >= 0 /\ ~HasCapacity(R1) THEN Poll2Pending(R1)
+    ELSE LET \* buffer the ACK, then apply: Streams::apply_remote_settings (Send.init_window_sz, A1)
+             B1 == IF G.se.remote < 0 THEN G
+                   ELSE LET v == G.se.remote
+                            B == Buffer(R1, FSettingsAck)
+                            okm == B.gh.unacked # <<>> /\ Head(B.gh.unacked) = v
+                        IN [B EXCEPT !.sl.sendIws = IF v > 0 THEN v ELSE @,
+                                     !.gh.okC14 = @ /\ okm,
+                                     !.gh.unacked = IF @ = <<>> THEN @ ELSE Tail(@),
+                                     !.gh.expSendIws = IF v > 0 THEN v ELSE @]
+             B2 == [B1 EXCEPT !.se.remote = -1]                                           \* self.remote = None
+         IN IF B2.se.local # "ToSend" THEN [B2 EXCEPT !.tk.pc = "read"]
+            ELSE LET R2 == PollReady(B2) IN
+                 IF ~HasCapacity(R2) THEN Poll2Pending(R2)
+                 ELSE [Buffer(R2, FSettings(B2.se.lval)) EXCEPT !.se.local = "WaitingAck", !.tk.pc = "read", !.gh.outstanding = @ + 1]
 
 \* DynConnection::recv_frame for one frame f (Ok(Continue) / Err(e) -> poll2 returns Ready(Err(e)))
 ConnError(G, code) == Poll2Ready(G, ResGoAway(code, FALSE))         \* Err(Error::library_go_away(code))
@@ -284,46 +301,59 @@ RecvPing(G, f) ==                                                   \* PingPong:
                  ELSE Continue(G1)                                                           \* "recv PING ack that we never sent": ignored
 RecvGoAway(G, f) ==                                                 \* Streams::recv_go_away; *self.error = Some(frame)
     IF f.a > G.sl.sendMax THEN ConnError(G, PROTOCOL_ERROR)                                  \* Send::recv_go_away: last id increased
-    ELSE Continue([G EXCEPT !.sl.sendMax = f.a, !.sl.connErr = TRUE, !.cs.error = Fr(f.a, f.b), !.gh.peerGoAway = Fr(f.a, f.b)])
+    ELSE LET cut(s) == Role = "client" /\ s > f.a /\ G.sl.st[s] \in CountedSt \cup {"popen"}   \* locally initiated, above the last id: handle_error
+         IN Continue(Unqueue([G EXCEPT !.sl.sendMax = f.a, !.sl.connErr = TRUE, !.cs.error = Fr(f.a, f.b), !.gh.peerGoAway = Fr(f.a, f.b),
+                                       !.sl.st = [s \in Streams |-> IF cut(s) THEN "closed" ELSE @[s]]],
+                              {s \in Streams : cut(s)}))
 RecvHeaders(G, f) ==                                                \* Inner::recv_headers (A2)
     LET s == f.a IN
     IF s > G.sl.recvMax THEN Continue(G)                                                     \* "id > max_stream_id, ignoring HEADERS"
+    ELSE IF Role = "client"
+         THEN \* the response (END_STREAM) to a request that has been written: HalfClosedLocal -> Closed, un-counted
+              IF G.sl.st[s] = "open" THEN Continue([G EXCEPT !.sl.st[s] = "closed"])
+              ELSE ConnError(G, PROTOCOL_ERROR)                                              \* (not generated by the peer of MC_Conn)
     ELSE IF G.sl.st[s] # "idle" \/ s < G.sl.nextId THEN ConnError(G, PROTOCOL_ERROR)          \* (not generated by the peer of MC_Conn)
     ELSE Continue([G EXCEPT !.sl.st[s] = "open", !.sl.nextId = s + 2, !.sl.lastProc = Max(@, s)])
 RecvReset(G, f) ==                                                  \* Inner::recv_reset (A2)
     LET s == f.a IN
     IF s > G.sl.recvMax THEN Continue(G)                                                     \* "id > max_stream_id, ignoring RST_STREAM"
     ELSE IF G.sl.st[s] = "idle"
-         THEN (IF s >= G.sl.nextId THEN ConnError(G, PROTOCOL_ERROR) ELSE Continue(G))        \* ensure_not_idle
+         THEN (IF Role = "client" \/ s >= G.sl.nextId THEN ConnError(G, PROTOCOL_ERROR) ELSE Continue(G))    \* ensure_not_idle
     ELSE IF G.sl.st[s] = "closed" THEN Continue(G)
-    ELSE Continue([G EXCEPT !.sl.st[s] = "closed", !.sl.sq = DropQueued(@, s)])
+    ELSE IF G.sl.st[s] = "popen" THEN ConnError(G, PROTOCOL_ERROR)                           \* stream.is_pending_open: "frame on idle stream"
+    ELSE Continue(Unqueue([G EXCEPT !.sl.st[s] = "closed"], {s}))
 
 \* poll2: Codec::poll_next + recv_frame + Settings::recv_settings
-RecvFrame ==
-    /\ tk.pc = "read"
-    /\ LET G == Cur IN
-       IF G.io.inq = <<>>
-       THEN IF G.io.eof
-            THEN Commit(Poll2Ready(StreamsRecvEof(G), ResOk))                                \* None: recv_eof(false); ReceivedFrame::Done
-            ELSE Commit(Poll2Pending([G EXCEPT !.tk.rw = TRUE]))                             \* Pending: the read waker is registered
-       ELSE LET f == Head(G.io.inq)
-                G1 == [G EXCEPT !.io.inq = Tail(@)]
-            IN CASE f.ty \in {"SETTINGS", "SETTINGS_ACK"} -> Commit(RecvSettings(G1, f))
-                 [] f.ty \in {"PING", "PING_ACK"} -> Commit(RecvPing(G1, f))
-                 [] f.ty = "GOAWAY" -> Commit(RecvGoAway(G1, f))
-                 [] f.ty = "HEADERS" -> Commit(RecvHeaders(G1, f))
-                 [] f.ty = "RST_STREAM" -> Commit(RecvReset(G1, f))
+RecvFrameOp(G) ==
+    IF G.io.inq = <<>>
+    THEN IF G.io.eof
+         THEN Poll2Ready(StreamsRecvEof(G), ResOk)                                           \* None: recv_eof(false); ReceivedFrame::Done
+         ELSE Poll2Pending([G EXCEPT !.tk.rw = TRUE])                                        \* Pending: the read waker is registered
+    ELSE LET f == Head(G.io.inq)
+             G1 == [G EXCEPT !.io.inq = Tail(@)]
+         IN CASE f.ty \in {"SETTINGS", "SETTINGS_ACK"} -> RecvSettings(G1, f)
+              [] f.ty \in {"PING", "PING_ACK"} -> RecvPing(G1, f)
+              [] f.ty = "GOAWAY" -> RecvGoAway(G1, f)
+              [] f.ty = "HEADERS" -> RecvHeaders(G1, f)
+              [] f.ty = "RST_STREAM" -> RecvReset(G1, f)
 
 \* the Poll::Pending arm of Connection::poll: Streams::poll_complete, then the idle-close test
 RECURSIVE PopFrames(_)
 PopFrames(G) ==                                                     \* Prioritize::buffer_pending
-    IF ~HasCapacity(G) \/ G.sl.sq = <<>> THEN G
-    ELSE LET x == Head(G.sl.sq)
-             G1 == [G EXCEPT !.sl.sq = Tail(@)]
-         IN CASE x.k = "H" -> PopFrames(Buffer(G1, FHeaders(x.s, FALSE)))
-              [] x.k = "D" -> PopFrames([Buffer(G1, FData(x.s, FALSE)) EXCEPT !.io.full = TRUE])        \* chained: `next` = Some(Data)
-              [] x.k = "E" -> PopFrames([Buffer(G1, IF x.h THEN FHeaders(x.s, TRUE) ELSE FData(x.s, TRUE))
-                                            EXCEPT !.sl.st[x.s] = "closed"])                           \* transition_after: closed, un-counted
+    IF ~HasCapacity(G) THEN G                                                                \* CodecFull
+    ELSE LET \* pop_pending_open: the stream is counted (num_send_streams) and goes to the FRONT of pending_send
+             G1 == IF G.sl.po = <<>> THEN G
+                   ELSE [G EXCEPT !.sl.po = Tail(@), !.sl.ps = <<Head(G.sl.po)>> \o @, !.sl.st[Head(G.sl.po)] = "open"]
+         IN IF G1.sl.ps = <<>> THEN G1                                                       \* pop_frame = None: Complete
+            ELSE LET \* pop_frame: one frame of the first stream; the stream goes to the BACK if it has more
+                     s == Head(G1.sl.ps)
+                     x == Head(G1.sl.fq[s])
+                     rest == Tail(G1.sl.fq[s])
+                     G2 == [G1 EXCEPT !.sl.fq[s] = rest, !.sl.ps = IF rest # <<>> THEN Append(Tail(@), s) ELSE Tail(@)]
+                 IN CASE x.k = "H" -> PopFrames(Buffer(G2, FHeaders(s, x.h)))
+                      [] x.k = "D" -> PopFrames([Buffer(G2, FData(s, x.h)) EXCEPT !.io.full = TRUE])       \* chained: `next` = Some(Data)
+                      [] x.k = "E" -> PopFrames([Buffer(G2, IF x.h THEN FHeaders(s, TRUE) ELSE FData(s, TRUE))
+                                                    EXCEPT !.sl.st[s] = "closed"])                          \* transition_after: closed, un-counted
 RECURSIVE PollCompleteLoop(_)
 PollCompleteLoop(G) ==                                              \* returns G with tk.pc = "idle" (Pending) or "complete" (Ready)
     LET R == PollReady(G) IN
@@ -332,45 +362,65 @@ PollCompleteLoop(G) ==                                              \* returns G
          IF ~HasCapacity(P) THEN PollCompleteLoop(P)                                         \* BufferStatus::CodecFull => continue
          ELSE LET T == [P EXCEPT !.tk.tw = TRUE]                                             \* Complete: me.actions.task = Some(waker)
               IN IF ~FlushReady(T) THEN PollPending(Flush(T)) ELSE Flush(T)                  \* ready!(dst.flush(cx))
-PollComplete ==
-    /\ tk.pc = "complete"
-    /\ LET C == PollCompleteLoop(Cur) IN
-       IF C.tk.pc = "idle" THEN Commit(C)
-       ELSE IF (C.cs.error.some \/ ShouldCloseOnIdle(C)) /\ ~HasStreams(C)
-            THEN Commit(Dispatch(DynGoAwayNow(C, NO_ERROR)))                                 \* go_away_now(NO_ERROR); continue
-            ELSE Commit(PollPending(C))
+PollCompleteOp(G) ==
+    LET C == PollCompleteLoop(G) IN
+    IF C.tk.pc = "idle" THEN C
+    ELSE IF (C.cs.error.some \/ ShouldCloseOnIdle(C)) /\ ~HasStreams(C)
+         THEN Dispatch(DynGoAwayNow(C, NO_ERROR))                                            \* go_away_now(NO_ERROR); continue
+         ELSE PollPending(C)
 
 \* DynConnection::handle_poll2_result (+ handle_go_away)
-HandlePoll2Result ==
-    /\ tk.pc = "result"
-    /\ LET G == [Cur EXCEPT !.tk.r = NoRes]
-           r == tk.r
-       IN IF r.k = "ok"
-          THEN Commit(Dispatch([G EXCEPT !.cs.state = "Closing", !.cs.reason = NO_ERROR]))
-          ELSE IF G.ga.going.some /\ G.ga.going.code = r.code
-               THEN Commit(Dispatch([G EXCEPT !.cs.state = "Closing", !.cs.reason = r.code]))   \* "already going away"
-               ELSE Commit(Dispatch(DynGoAwayNow(StreamsHandleError(G), r.code)))
+HandlePoll2ResultOp(G0) ==
+    LET G == [G0 EXCEPT !.tk.r = NoRes]
+        r == G0.tk.r
+    IN IF r.k = "ok"
+       THEN Dispatch([G EXCEPT !.cs.state = "Closing", !.cs.reason = NO_ERROR])
+       ELSE IF G.ga.going.some /\ G.ga.going.code = r.code
+            THEN Dispatch([G EXCEPT !.cs.state = "Closing", !.cs.reason = r.code])           \* "already going away"
+            ELSE Dispatch(DynGoAwayNow(StreamsHandleError(G), r.code))
 
 \* State::Closing: ready!(self.codec.shutdown(cx))
-CodecShutdown ==
-    /\ tk.pc = "shutdown"
-    /\ LET G == Cur IN
-       IF ~FlushReady(G) THEN Commit(PollPending(Flush(G)))
-       ELSE Commit(Dispatch([Flush(G) EXCEPT !.io.shut = TRUE, !.cs.state = "Closed"]))
+CodecShutdownOp(G) ==
+    IF ~FlushReady(G) THEN PollPending(Flush(G))
+    ELSE Dispatch([Flush(G) EXCEPT !.io.shut = TRUE, !.cs.state = "Closed"])
 
 \* State::Closed: Poll::Ready(self.take_error(reason, initiator)); the connection object is dropped (A7):
 \* UserPingsRx::drop stores USER_STATE_CLOSED and wakes the pong task
-TakeError ==
-    /\ tk.pc = "take_error"
-    /\ LET G == Cur
-           ours == G.cs.reason
-           theirs == IF G.cs.error.some THEN G.cs.error.code ELSE NO_ERROR
-           res == IF ours = NO_ERROR /\ theirs = NO_ERROR THEN ResOk
-                  ELSE IF theirs = NO_ERROR THEN ResGoAway(ours, FALSE)
-                  ELSE ResGoAway(theirs, TRUE)
-           G1 == [G EXCEPT !.cs.error = NoFrame, !.tk.res = res, !.tk.pc = "done",
-                           !.pp.user = IF @ = "NoHandle" THEN @ ELSE "Closed"]
-       IN Commit(Api(G1, "conn_poll", res.k, res.code, res.remote))
+TakeErrorOp(G) ==
+    LET ours == G.cs.reason
+        theirs == IF G.cs.error.some THEN G.cs.error.code ELSE NO_ERROR
+        res == IF ours = NO_ERROR /\ theirs = NO_ERROR THEN ResOk
+               ELSE IF theirs = NO_ERROR THEN ResGoAway(ours, FALSE)
+               ELSE ResGoAway(theirs, TRUE)
+        G1 == [G EXCEPT !.cs.error = NoFrame, !.tk.res = res, !.tk.pc = "done",
+                        !.pp.user = IF @ = "NoHandle" THEN @ ELSE "Closed"]
+    IN Api(G1, "conn_poll", res.k, res.code, res.remote)
+
+PollStart == Alive /\ tk.pc = "idle" /\ tk.woken /\ Commit(PollStartOp(Cur))
+PollGoAway == tk.pc = "go_away" /\ Commit(PollGoAwayOp(Cur))
+SendPendingPong == tk.pc = "pong" /\ Commit(SendPendingPongOp(Cur))
+SendPendingPing == tk.pc = "ping" /\ Commit(SendPendingPingOp(Cur))
+SettingsPollSend == tk.pc = "settings" /\ Commit(SettingsPollSendOp(Cur))
+RecvFrame == tk.pc = "read" /\ Commit(RecvFrameOp(Cur))
+PollComplete == tk.pc = "complete" /\ Commit(PollCompleteOp(Cur))
+HandlePoll2Result == tk.pc = "result" /\ Commit(HandlePoll2ResultOp(Cur))
+CodecShutdown == tk.pc = "shutdown" /\ Commit(CodecShutdownOp(Cur))
+TakeError == tk.pc = "take_error" /\ Commit(TakeErrorOp(Cur))
+
+\* one whole call of Connection::poll as a single step (model checking: the steps of a poll do not interleave with the
+\* &mut methods of the connection anyway, and MC_Conn lets the environment move between polls only)
+StepOp(G) == CASE G.tk.pc = "go_away" -> PollGoAwayOp(G)
+               [] G.tk.pc = "pong" -> SendPendingPongOp(G)
+               [] G.tk.pc = "ping" -> SendPendingPingOp(G)
+               [] G.tk.pc = "settings" -> SettingsPollSendOp(G)
+               [] G.tk.pc = "read" -> RecvFrameOp(G)
+               [] G.tk.pc = "complete" -> PollCompleteOp(G)
+               [] G.tk.pc = "result" -> HandlePoll2ResultOp(G)
+               [] G.tk.pc = "shutdown" -> CodecShutdownOp(G)
+               [] G.tk.pc = "take_error" -> TakeErrorOp(G)
+RECURSIVE RunPoll(_)
+RunPoll(G) == IF G.tk.pc \in {"idle", "done"} THEN G ELSE RunPoll(StepOp(G))
+PollAtomic == Alive /\ tk.pc = "idle" /\ tk.woken /\ Commit(RunPoll(PollStartOp(Cur)))
 
 \* ---- the peer / the transport -------------------------------------------------------------------------------------------------
 WakeRead(G) == IF G.tk.rw THEN [G EXCEPT !.tk.rw = FALSE, !.tk.woken = TRUE] ELSE G
@@ -429,11 +479,33 @@ WakeTask(G) == IF G.tk.tw THEN [G EXCEPT !.tk.tw = FALSE, !.tk.woken = TRUE] ELS
 \* SendResponse::send_response(eos = false) + SendStream::send_data(large, eos = false)
 AppFill(s) ==
     /\ sl.st[s] = "open"
-    /\ Commit(WakeTask([Cur EXCEPT !.sl.st[s] = "resp", !.sl.sq = @ \o <<[s |-> s, k |-> "H", h |-> FALSE], [s |-> s, k |-> "D", h |-> FALSE]>>]))
+    /\ Commit(WakeTask(QueueFrames([Cur EXCEPT !.sl.st[s] = "resp"], s, <<Item("H", FALSE), Item("D", FALSE)>>)))
 \* send_response(eos = true) on a stream not yet answered / send_data(empty, eos = true) on an answered one
 AppEnd(s) ==
     /\ sl.st[s] \in {"open", "resp"}
-    /\ Commit(WakeTask([Cur EXCEPT !.sl.st[s] = "ending", !.sl.sq = Append(@, [s |-> s, k |-> "E", h |-> sl.st[s] = "open"])]))
+    /\ Commit(WakeTask(QueueFrames([Cur EXCEPT !.sl.st[s] = "ending"], s, <<Item("E", sl.st[s] = "open")>>)))
+
+\* ---- the client application ------------------------------------------------------------------------------------------------------
+\* SendRequest::poll_ready + send_request(END_STREAM) on the next id: the stream waits in pending_open, the connection task is notified
+AppRequest(s) ==
+    /\ Role = "client" /\ Alive /\ sl.sr /\ ~sl.connErr
+    /\ sl.st[s] = "idle" /\ \A t \in Streams : t < s => sl.st[t] # "idle"
+    /\ Commit(WakeTask([Cur EXCEPT !.sl.st[s] = "popen", !.sl.ref[s] = TRUE, !.sl.po = Append(@, s), !.sl.fq[s] = <<Item("H", TRUE)>>]))
+\* send_request(eos = false) + send_data(large, eos = true): the DATA frame is chained by FramedWrite ("fill" of the client role)
+AppRequestBig(s) ==
+    /\ Role = "client" /\ Alive /\ sl.sr /\ ~sl.connErr
+    /\ sl.st[s] = "idle" /\ \A t \in Streams : t < s => sl.st[t] # "idle"
+    /\ Commit(WakeTask([Cur EXCEPT !.sl.st[s] = "popen", !.sl.ref[s] = TRUE, !.sl.po = Append(@, s),
+                                   !.sl.fq[s] = <<Item("H", FALSE), Item("D", TRUE)>>]))
+\* the tasks that hold the handles of a closed stream see the response / the error and drop them (drop_stream_ref: ref_count == 0 and
+\* closed => the connection task is notified)
+DropRef(s) ==
+    /\ Role = "client" /\ sl.ref[s] /\ sl.st[s] = "closed"
+    /\ Commit(WakeTask([Cur EXCEPT !.sl.ref[s] = FALSE]))
+\* the last SendRequest handle is dropped (Drop for Streams: refs == 1 => the connection task is notified)
+DropSendRequest ==
+    /\ Role = "client" /\ sl.sr
+    /\ LET G == [Cur EXCEPT !.sl.sr = FALSE] IN Commit(IF HasRefs(G) THEN G ELSE WakeTask(G))
 
 \* ---- properties of the implementation state ------------------------------------------------------------------------------------
 \* C08: no assert! / expect / debug_assert of the modelled code is reachable
